@@ -54,6 +54,7 @@ struct ec_ctx; int __real_ec_dec_bit_logp(struct ec_ctx *d,unsigned logp);
 #define HOOKMAX 24
 static int hook_on,hook_n,hook_logp[HOOKMAX],hook_res[HOOKMAX];
 int __wrap_ec_dec_bit_logp(struct ec_ctx *d,unsigned logp){ int r=__real_ec_dec_bit_logp(d,logp); if(hook_on&&hook_n<HOOKMAX){ hook_logp[hook_n]=(int)logp; hook_res[hook_n]=r; hook_n++; } return r; }
+static mc_ctr *c_fr_intra,*c_fr_inter,*c_widen_intra,*c_widen_inter,*c_widen_inter_st;
 static mc_ctr *c_lv_met[4][6],*c_lv_streams,*c_lv_noswitch,*c_lv_shifted,*c_lv_rate,*c_lv_rate_l2q; static mc_set *S_lvclass;
 static mc_ctr *c_nored_to[2][4],*c_nored_from[2][4],*c_red_to,*c_red_from,*c_nored_after_gap,*c_loss_adv,*c_loss_streams;
 
@@ -83,7 +84,7 @@ static void run_config(ictx *I,int ri,int ch){
    float *tf=malloc(sizeof(float)*cap),*rf=malloc(sizeof(float)*cap),*xf=malloc(sizeof(float)*cap);
    opus_int16 *t16=malloc(2*cap),*r16=malloc(2*cap),*x16=malloc(2*cap);
    opus_int32 *t24=malloc(4*cap),*r24=malloc(4*cap),*x24=malloc(4*cap);
-   int bad_count[API_N]={0,0,0}, bad_rng=0, bad_ref=0, w_pm=-1, w_prtocelt=0, w_gap=0;
+   int bad_count[API_N]={0,0,0}, bad_rng=0, bad_ref=0, w_pm=-1, w_prtocelt=0, w_gap=0, w_en=0, w_st=0;
    memset(T,0,sizeof T); memset(R,0,sizeof R); memset(X,0,sizeof X);
    mc_case("decode","stream [%s] item %ld at %d Hz x %d ch",I->name,mc_cur_item(),rate,ch);
    for(a=0;a<API_N;a++){ T[a]=opus_decoder_create(rate,ch,&err); R[a]=ref_opus_decoder_create(rate,ch,&err); X[a]=reffx_opus_decoder_create(rate,ch,&err);
@@ -119,6 +120,18 @@ static void run_config(ictx *I,int ri,int ch){
             if (w_pm>=0 && (m==2)!=(w_pm==2)){
                if (m==2){ di=d48==120?0:d48==240?1:d48==480?2:3; if(!w_prtocelt){ MC_INC(c_nored_to[w_pm][di]); if(w_gap) MC_INC(c_nored_after_gap); } else MC_INC(c_red_to); }
                else { di=d48==480?0:d48==960?1:d48==1920?2:3; if(!red){ MC_INC(c_nored_from[m][di]); if(w_gap) MC_INC(c_nored_after_gap); } else MC_INC(c_red_from); } }
+            /* CELT layer: band range [start,end) of this packet vs the previous one, and the intra-energy flag of the first frame
+               (CELT header reads: [silence, logp 15, only at the very start of the range decoder] [post-filter, logp 1, CELT-only]
+               [transient, logp 3, frames > 2.5 ms] intra, logp 3). Evidence counters only. */
+            { static const int ENDB[5]={13,15,17,19,21}; int st_=m==1?17:0, en_=m==0?0:ENDB[rfc_bandwidth(toc)], intra=-1, q=0;
+              if (m!=0 && (toc&3)==0 && !red){
+                 if (m==1){ q=((d48<=960?1:d48/960)+1)*rfc_channels(toc); if(q<hook_n&&hook_logp[q]==12) q++; else q=hook_n; }
+                 else { if(q<hook_n&&hook_logp[q]==15){ if(hook_res[q]) q=hook_n; else q++; } if(q<hook_n&&hook_logp[q]==1) q++; }
+                 if (d48>120){ if(q<hook_n&&hook_logp[q]==3) q++; else q=hook_n; }
+                 if (q<hook_n&&hook_logp[q]==3) intra=hook_res[q]; }
+              if (intra>=0){ MC_INC(intra?c_fr_intra:c_fr_inter);
+                 if (w_en>0 && !w_gap && (en_>w_en || st_<w_st)){ if(intra) MC_INC(c_widen_intra); else { MC_INC(c_widen_inter); if(rfc_channels(toc)==2) MC_INC(c_widen_inter_st); } } }
+              w_en=en_; w_st=st_; }
             w_pm=m; w_prtocelt=(m!=2&&red&&!c2s); w_gap=0; }
       }
       if (bad_count[0]||bad_count[1]||bad_count[2]||bad_ref) goto done;   /* PCM buffers no longer aligned: stop this configuration */
@@ -223,7 +236,7 @@ int main(int argc,char **argv){
    G.cfg_rates=(int)mc_arg("--cfg-rates",MC.tier?3:1); G.cfg_sigs=(int)mc_arg("--cfg-sigs",MC.tier?6:2); G.cfg_ms=(int)mc_arg("--cfg-ms",MC.tier?1000:360);
    G.trans_scheds=(int)mc_arg("--trans-scheds",MC.tier?5:2); G.trans_sigs=(int)mc_arg("--trans-sigs",MC.tier?2:1); G.trans_ms=(int)mc_arg("--trans-ms",MC.tier?400:240);
    G.ref_rates=(int)mc_arg("--ref-rates",MC.tier?3:1); G.ref_ms=(int)mc_arg("--ref-ms",MC.tier?720:360);
-   G.feat_sigs=(int)mc_arg("--feat-sigs",MC.tier?3:1); G.feat_ms=(int)mc_arg("--feat-ms",MC.tier?1800:1080); G.silkbw_ms=(int)mc_arg("--silkbw-ms",4300); G.switch_sigs=(int)mc_arg("--switch-sigs",MC.tier?2:1); G.level_full=(int)mc_arg("--level-full",MC.tier?1:0);
+   G.feat_sigs=(int)mc_arg("--feat-sigs",MC.tier?3:1); G.feat_ms=(int)mc_arg("--feat-ms",MC.tier?1800:1080); G.silkbw_ms=(int)mc_arg("--silkbw-ms",4300); G.switch_sigs=(int)mc_arg("--switch-sigs",MC.tier?2:1); G.level_full=(int)mc_arg("--level-full",MC.tier?1:0); G.round_full=(int)mc_arg("--round-full",MC.tier?1:0);
    opt_fam=(int)mc_arg("--fam",-1); opt_rfcproc=(int)mc_arg("--rfcproc",1); opt_apis=(int)mc_arg("--apis",7)|1;   /* the float API is always run: the full-scale guard needs it */
    items_build(&G);
    oc_init();
@@ -245,6 +258,8 @@ int main(int argc,char **argv){
      for(i=0;i<4;i++) for(j=0;j<6;j++){ snprintf(nm,48,"level_%s_step_%s_met",sn[i],on[j]); c_lv_met[i][j]=mc_counter(nm); }
      c_lv_streams=mc_counter("level_streams"); c_lv_noswitch=mc_counter("level_no_switch_in_probe"); c_lv_shifted=mc_counter("level_switch_moved_by_schedule");
      c_lv_rate=mc_counter("level_silk_rate_switch_met"); c_lv_rate_l2q=mc_counter("level_silk_rate_switch_loud_to_quiet_early_met"); S_lvclass=mc_set_new(16); }
+   c_fr_intra=mc_counter("celt_first_frames_intra_energy"); c_fr_inter=mc_counter("celt_first_frames_inter_energy");
+   c_widen_intra=mc_counter("celt_band_range_widened_first_frame_intra"); c_widen_inter=mc_counter("celt_band_range_widened_first_frame_inter"); c_widen_inter_st=mc_counter("celt_band_range_widened_first_inter_stereo");
    S_states=mc_set_new(21); S_classes=mc_set_new(20); S_toc=mc_set_new(8); S_trans=mc_set_new(12); S_codes=mc_set_new(6);
    skipped=mc_par(NITEMS,run_item,NULL); (void)skipped;
    *c_states=mc_set_count(S_states); *c_dn=mc_set_count(S_classes);
